@@ -224,3 +224,40 @@ func VerifC16Resume() {
 	}
 	vCover("c16-resume-end")
 }
+
+// VerifC16Flow: the real client goroutines with a window of 1: after an idle period of any
+// length (every pending timer fires) three QoS 1 messages are queued; the subscriber
+// acknowledges each one as it arrives. All three are delivered, one at a time, in order, and
+// the connection stays open: waiting for a slot is bounded by the time since the wait began,
+// not by the age of the connection.
+func VerifC16Flow() {
+	be := newRecBackend()
+	be.ClientInflightMessages = 1
+	_, conn := startClient(be, mkConnect("c", vBool("clean"), nil), false)
+	s := packet.NewSubscribe()
+	s.ID = 1
+	s.Subscriptions = []packet.Subscription{{Topic: "t", QOS: 1}}
+	conn.in <- s
+	vQuiesce()
+	for i := 0; i < 3 && vFireTimers(); i++ { // time passes on the idle connection
+		vQuiesce()
+	}
+	vAssert(!conn.isClosed(), "an idle connection is not closed by the broker's token timers")
+	pub, _ := mkClient(be.MemoryBackend, "p", true)
+	for i := 0; i < 3; i++ {
+		vAssert(be.MemoryBackend.Publish(pub, &packet.Message{Topic: "t", Payload: []byte{byte(i + 1)}, QOS: 1}, nil) == nil, "publish")
+	}
+	for i := 0; i < 3; i++ {
+		vQuiesce()
+		vAssert(countType(conn, packet.PUBLISH) == i+1, "C16: exactly one more message is sent per acknowledgement")
+		if countType(conn, packet.PUBLISH) != i+1 {
+			return
+		}
+		p := conn.sentAt(conn.sentCount() - 1).(*packet.Publish)
+		vAssert(p.Message.Payload[0] == byte(i+1), "in order")
+		conn.in <- &packet.Puback{ID: p.ID}
+	}
+	vQuiesce()
+	vAssert(!conn.isClosed(), "C16: delivery keeps flowing while acknowledgements flow; the connection stays open")
+	vCover("c16-flow-end")
+}
